@@ -321,6 +321,49 @@ def check_wiring(ctx):
 R5 = "C11-D5 zero-is-a-value"
 
 
+def check_members_saved_individually(ctx):
+    """Every member of a saved operator list is converted on its own. Looking the converted form up in a memo keyed by the
+    operator identifies operators by `==`/hash, which for Pauli operators means "coefficients equal up to 1e-6 / allclose":
+    a member that is only nearly equal to an earlier one would be written as a copy of it."""
+    repo = ctx.repo
+    fi = repo.func("operators._io:save_operator_set")
+    ctx.analysed(fi)
+    loops = [l for l in body_walk(fi.node) if isinstance(l, ast.For) and isinstance(l.target, ast.Name)]
+    bad = []
+    for l in loops:
+        v = l.target.id
+        for n in ast.walk(l):
+            if isinstance(n, ast.Subscript) and isinstance(n.slice, ast.Name) and n.slice.id == v and isinstance(n.value, ast.Name):
+                bad.append(n)
+            if isinstance(n, ast.Compare) and isinstance(n.left, ast.Name) and n.left.id == v and len(n.ops) == 1 and isinstance(n.ops[0], (ast.In, ast.NotIn)) and isinstance(n.comparators[0], ast.Name):
+                bad.append(n)
+    ctx.check(not bad, R1, fi.key + ":members-individually", "each list member is converted by convert_op_to_dict itself", f"`{short(bad[0]) if bad else ''}` keys a lookup by the operator being saved: equality and hash of Pauli operators are tolerant (coefficients rounded to 1e-6), so a member nearly equal to an earlier one is saved as that earlier operator", f"{fi.module.relpath}:{bad[0].lineno}" if bad else fi)
+
+
+def check_loaded_arrays_unchanged(ctx):
+    """What a loader hands to the artefact's constructor is the stored array: no coercion to a real / integer dtype and no
+    `.real` on the way, because every array artefact may be complex (values, correlations, covariances, amplitudes)."""
+    repo = ctx.repo
+    readers = ["measurements.expectation_values:ExpectationValues.from_dict", "measurements.parities:Parities.from_dict", "utils:convert_dict_to_array", "utils:load_value_estimate", "wavefunction:load_wavefunction"]
+    REAL = ("float", "int", "np.float64", "np.float32", "numpy.float64", "np.int64", "np.double", "np.single", "'float'", '"float"', "'float64'")
+    for key in readers:
+        if not repo.has_func(key):
+            continue
+        fi = repo.func(key)
+        ctx.analysed(fi)
+        bad = []
+        for n in body_walk(fi.node):
+            if isinstance(n, ast.Call):
+                for k in n.keywords:
+                    if k.arg == "dtype" and norm(k.value) in REAL:
+                        bad.append(n)
+                if isinstance(n.func, ast.Attribute) and n.func.attr == "astype" and n.args and (norm(n.args[0]) in REAL or isinstance(n.args[0], ast.Name)):
+                    bad.append(n)
+                if (dotted(n.func) or "").split(".")[-1] in ("real", "real_if_close") and n.args:
+                    bad.append(n)
+        ctx.check(not bad, R1, fi.key + ":arrays-unchanged", "stored arrays reach the constructor as stored", f"`{short(bad[0]) if bad else ''}` coerces a loaded array to a real dtype: the imaginary part of complex data (e.g. complex estimator covariances) is silently dropped on load", f"{fi.module.relpath}:{bad[0].lineno}" if bad else fi)
+
+
 def check_zero_is_a_value(ctx):
     """A coefficient / value of 0 is legitimate data: code that parses or restores an optional number must
     tell "absent" from "zero" with ``is None``, not by truthiness (0, 0.0 and 0j are falsy)."""
@@ -372,6 +415,8 @@ def run(ctx):
     check_grammar(ctx)
     check_slots(ctx)
     check_zero_is_a_value(ctx)
+    check_members_saved_individually(ctx)
+    check_loaded_arrays_unchanged(ctx)
     from ..lints import one_sided_signed_part_tests
 
     hits = one_sided_signed_part_tests(ctx.repo, ("utils", "operators._io", "measurements.expectation_values", "measurements.parities", "measurements.measurements", "operators._pauli_operators"))
